@@ -8,7 +8,7 @@ PROPS = {
             {'template': 'units/c04_int.rs.in', 'modes': [[]], 'canary': True},
             {'template': 'units/c04_int_err.rs.in', 'modes': [[]], 'canary': True},
         ],
-        'kani': [],
+        'kani': [{'name': 'c04', 'jobs': 8, 'timeout': 1500}],
         'not_covered': [
             'operator -> helper selection in src/backend/ir/conversions.rs determine_binop_plan (TokenStream-valued; see C01)',
             'IEEE-754 division, fmod and floor themselves (hardware / libm)',
